@@ -5,6 +5,7 @@ import (
 	"bytes"
 	"encoding/hex"
 	"fmt"
+	"github.com/pokt-network/posmint/crypto/keys/mintkey"
 	"io/ioutil"
 	"os"
 	"sort"
@@ -248,6 +249,7 @@ type kbEntry struct {
 	priv []byte // raw private key bytes
 	pass string
 	pub  crypto.PublicKey
+	old  []string // passphrases that used to open this key (before an Update, or before it was deleted and re-imported)
 }
 
 var passes = []string{"", "p", "correct horse", "пароль-密码-🔑", string(bytes.Repeat([]byte("x"), 1024)), "pass2", " ",
@@ -336,7 +338,14 @@ func RunKeybase(r *sim.Rand, nops int, lazy bool, rep Reporter) {
 		a := as[r.Intn(len(as))]
 		return a, model[a]
 	}
+	formerPasses := map[string][]string{} // address -> passphrases of deleted incarnations
 	wrongPass := func(e *kbEntry) string {
+		if len(e.old) > 0 && r.Chance(50) {
+			if p := e.old[r.Intn(len(e.old))]; !kdfEquivalent(p, e.pass) {
+				rep.Count("c19.kb.former_passphrase_offered", 1)
+				return p
+			}
+		}
 		if r.Chance(50) {
 			if p := nearPass(r, e.pass); !kdfEquivalent(p, e.pass) {
 				rep.Count("c19.kb.near_miss_passphrases", 1)
@@ -413,7 +422,7 @@ func RunKeybase(r *sim.Rand, nops int, lazy bool, rep Reporter) {
 				if hexOf(kp.GetAddress()) != act.AddrHex() {
 					rep.Violate("C19", "kb-import-address", "imported key has another address")
 				}
-				model[act.AddrHex()] = &kbEntry{priv: act.Priv.RawBytes(), pass: pass, pub: act.Pub}
+				model[act.AddrHex()] = &kbEntry{priv: act.Priv.RawBytes(), pass: pass, pub: act.Pub, old: formerPasses[act.AddrHex()]}
 			case exists:
 				intact(act.AddrHex(), model[act.AddrHex()], "refused-import")
 			}
@@ -427,7 +436,11 @@ func RunKeybase(r *sim.Rand, nops int, lazy bool, rep Reporter) {
 			np := passes[r.Intn(len(passes))]
 			if r.Chance(30) {
 				wp := wrongPass(e)
-				arm, err := kb.ExportPrivKeyEncryptedArmor(ad, wp, np, "hint")
+				hint := []string{"hint", "", ""}[r.Intn(3)]
+				if r.Chance(40) {
+					np = wp // the same (wrong) passphrase in both roles
+				}
+				arm, err := kb.ExportPrivKeyEncryptedArmor(ad, wp, np, hint)
 				if err == nil {
 					rep.Violate("C19", "kb-wrong-pass-yields-key/export", fmt.Sprintf("export with a wrong passphrase returned armor of length %d", len(arm)))
 				}
@@ -435,7 +448,10 @@ func RunKeybase(r *sim.Rand, nops int, lazy bool, rep Reporter) {
 				intact(a, e, "wrong-pass-export")
 				continue
 			}
-			arm, err := kb.ExportPrivKeyEncryptedArmor(ad, e.pass, np, "hint")
+			if r.Chance(30) {
+				np = e.pass
+			}
+			arm, err := kb.ExportPrivKeyEncryptedArmor(ad, e.pass, np, []string{"hint", ""}[r.Intn(2)])
 			if err != nil {
 				rep.Violate("C19", "kb-export-error", fmt.Sprintf("export with the right passphrase failed: %v", err))
 				continue
@@ -487,6 +503,7 @@ func RunKeybase(r *sim.Rand, nops int, lazy bool, rep Reporter) {
 				continue
 			}
 			old := e.pass
+			e.old = append(e.old, old)
 			e.pass = np
 			intact(a, e, "update")
 			if old != np {
@@ -513,6 +530,7 @@ func RunKeybase(r *sim.Rand, nops int, lazy bool, rep Reporter) {
 				rep.Violate("C19", "kb-delete-error", fmt.Sprintf("Delete with the right passphrase failed: %v", err))
 				continue
 			}
+			formerPasses[a] = append(append(formerPasses[a], e.old...), e.pass)
 			delete(model, a)
 			if _, err := kb.Get(ad); err == nil {
 				rep.Violate("C19", "kb-delete-no-effect", "key still present after Delete")
@@ -589,4 +607,58 @@ func cut(s string) string {
 		return s[:24]
 	}
 	return s
+}
+
+// CheckArmor: encrypt-and-armor followed by unarmor-and-decrypt returns the same key (type and bytes) for every key type,
+// including private keys whose raw bytes happen to be printable / ASCII hex digits; a wrong passphrase yields an error.
+func CheckArmor(r *sim.Rand, rep Reporter) {
+	var raw []byte
+	kind := ""
+	switch r.Intn(5) {
+	case 0:
+		raw, kind = crypto.GenerateSecp256k1PrivKey().RawBytes(), "secp256k1-random"
+	case 1:
+		raw, kind = crypto.GenerateEd25519PrivKey().RawBytes(), "ed25519-random"
+	case 2:
+		// a secp256k1 secret made of ASCII hex digits only
+		raw = make([]byte, 32)
+		for i := range raw {
+			raw[i] = "0123456789abcdefABCDEF"[r.Intn(22)]
+		}
+		kind = "secp256k1-ascii-hex-bytes"
+	case 3:
+		// printable ASCII, JSON-ish and NUL-containing secrets
+		raw = []byte([]string{"{\"a\":\"b\"}________________________", "\x00\x00\x00\x00\x00\x00\x00\x00\x00\x00\x00\x00\x00\x00\x00\x00\x00\x00\x00\x00\x00\x00\x00\x00\x00\x00\x00\x00\x00\x00\x00\x01", "                               1"}[r.Intn(3)])
+		kind = "secp256k1-printable-bytes"
+	default:
+		act := sim.NewSecpActor(r.U64(), r.Intn(100))
+		raw, kind = act.Priv.RawBytes(), "secp256k1-derived"
+	}
+	pk, err := crypto.NewPrivateKeyBz(raw)
+	if err != nil {
+		return
+	}
+	pass := passes[r.Intn(len(passes))]
+	rep.Count("c19.armor.cases", 1)
+	rep.Count("c19.armor."+kind, 1)
+	var arm string
+	if p := catch(func() { arm, err = mintkey.EncryptArmorPrivKey(pk, pass, []string{"", "hint"}[r.Intn(2)]) }); p != nil || err != nil {
+		rep.Violate("C19", "armor-encrypt-error/"+kind, fmt.Sprintf("EncryptArmorPrivKey failed: %v %v", p, err))
+		return
+	}
+	var back crypto.PrivateKey
+	if p := catch(func() { back, err = mintkey.UnarmorDecryptPrivKey(arm, pass) }); p != nil || err != nil {
+		rep.Violate("C19", "armor-roundtrip-error/"+kind, fmt.Sprintf("a %d-byte key (%s) armored under a passphrase does not open under that passphrase: %v %v", len(raw), kind, p, err))
+		return
+	}
+	if !bytes.Equal(back.RawBytes(), raw) || fmt.Sprintf("%T", back) != fmt.Sprintf("%T", pk) {
+		rep.Violate("C19", "armor-roundtrip-key/"+kind, fmt.Sprintf("armor round trip turned a %T of %d bytes into a %T of %d bytes", pk, len(raw), back, len(back.RawBytes())))
+	}
+	wp := nearPass(r, pass)
+	if !kdfEquivalent(wp, pass) {
+		var k2 crypto.PrivateKey
+		if p := catch(func() { k2, err = mintkey.UnarmorDecryptPrivKey(arm, wp) }); p == nil && err == nil {
+			rep.Violate("C19", "armor-wrong-pass-yields-key/"+kind, fmt.Sprintf("a wrong passphrase (%d bytes, right one %d bytes) opened the armor and returned a %T", len(wp), len(pass), k2))
+		}
+	}
 }
